@@ -630,3 +630,282 @@ mod c06_suites {
         );
     }
 }
+
+// ------------------------------------------------------------------------------------------
+// C04 — MAC accumulators (agent a9). Everything is inside `c04_pure`.
+//
+// The real `MaliciousAccumulator::accumulate_macs` (public) is driven with a scripted `SharedRandomness`
+// (so the random constant alpha of a call is chosen by the request) on the accumulator of a real
+// `validator::Malicious` (its `accumulator` field and `u_and_w()` are `pub(super)`, hence visible here).
+// The difference of (u, w) before / after one call is exactly
+//   du = compute_dot_product_contribution(alpha, rx),  dw = compute_dot_product_contribution(alpha, induced(x)).
+//
+// Requests (values decimal, canonical field elements):
+//   c04.acc1 <field> <al>,<ar> <xl>,<xr> <ml>,<mr>           one helper's view      -> `<du> <dw>`
+//   c04.acc3 <field> <a1>,<a2>,<a3> <x1>,<x2>,<x3> <m1>,<m2>,<m3>   the three helpers' views of the sharings
+//                                                            -> `<du1>,<du2>,<du3> <dw1>,<dw2>,<dw3>`
+//   c04.accg Fp31 <al> <ar>     all 31*31 pairs (bl, br): x = (bl, br), rx = (br, bl)
+//                                                            -> `<du…(961)> <dw…(961)>`
+pub mod c04_pure {
+    use std::cell::RefCell;
+
+    use generic_array::{ArrayLength, GenericArray, sequence::GenericSequence};
+
+    use super::super::{
+        Context, MaliciousContext,
+        validator::{Malicious, MaliciousAccumulator},
+    };
+    use crate::{
+        ff::{Fp31, Fp32BitPrime, PrimeField, U128Conversions, ec_prime_field::Fp25519},
+        helpers::Direction,
+        ipa_verif::proto::*,
+        protocol::{
+            RecordId,
+            prss::{FromPrss, PrssIndex, SharedRandomness},
+        },
+        secret_sharing::{
+            SharedValueArray, Vectorizable,
+            replicated::{
+                ReplicatedSecretSharing,
+                malicious::{AdditiveShare as MaliciousReplicated, ExtendableField},
+                semi_honest::AdditiveShare as Replicated,
+            },
+        },
+        sharding::NotSharded,
+        test_fixture::TestWorld,
+    };
+
+    /// PRSS whose left / right values are scripted: chunk `i` of a draw (= lane `i` of a vectorised sharing)
+    /// is filled from `left[i]` / `right[i]`.
+    struct Scripted {
+        left: Vec<Vec<u128>>,
+        right: Vec<Vec<u128>>,
+    }
+
+    impl Scripted {
+        fn scalar(l: u128, r: u128) -> Self {
+            Scripted { left: vec![vec![l]], right: vec![vec![r]] }
+        }
+
+        fn arr<Z: ArrayLength>(c: &[u128]) -> GenericArray<u128, Z> {
+            GenericArray::generate(|j| c[j % c.len()])
+        }
+    }
+
+    impl SharedRandomness for Scripted {
+        type ChunkIter<'a, Z: ArrayLength> = std::vec::IntoIter<GenericArray<u128, Z>>;
+
+        fn generate_chunks_one_side<I: Into<PrssIndex>, Z: ArrayLength>(
+            &self,
+            _index: I,
+            direction: Direction,
+        ) -> Self::ChunkIter<'_, Z> {
+            let v = if direction == Direction::Left { &self.left } else { &self.right };
+            v.iter().map(|c| Self::arr::<Z>(c)).collect::<Vec<_>>().into_iter()
+        }
+
+        fn generate_chunks_iter<I: Into<PrssIndex>, Z: ArrayLength>(
+            &self,
+            _index: I,
+        ) -> impl Iterator<Item = (GenericArray<u128, Z>, GenericArray<u128, Z>)> {
+            self.left
+                .iter()
+                .zip(self.right.iter())
+                .map(|(l, r)| (Self::arr::<Z>(l), Self::arr::<Z>(r)))
+                .collect::<Vec<_>>()
+                .into_iter()
+        }
+    }
+
+    /// 16-lane Fp25519 share (the shape used by eval_dy_prf): every argument is `v0+v1+…+v15`
+    fn vector16(acc: &RefCell<MaliciousAccumulator<Fp25519>>, t: &[&str]) -> String {
+        use crate::ipa_verif::c04::{dec_to_le, show, val};
+        const N: usize = 16;
+        type Arr = <Fp25519 as Vectorizable<N>>::Array;
+        let lanes = |s: &str| -> Vec<String> { s.split('+').map(str::to_string).collect() };
+        let arr = |s: &str| -> Arr {
+            let l = lanes(s);
+            assert_eq!(l.len(), N, "harness: 16 lanes expected");
+            SharedValueArray::from_fn(|i| val::<Fp25519>(&l[i]))
+        };
+        let chunks = |s: &str| -> Vec<Vec<u128>> {
+            lanes(s)
+                .iter()
+                .map(|v| {
+                    let b = dec_to_le(v, 32);
+                    vec![
+                        u128::from_le_bytes(b[0..16].try_into().unwrap()),
+                        u128::from_le_bytes(b[16..32].try_into().unwrap()),
+                    ]
+                })
+                .collect()
+        };
+        let share = MaliciousReplicated::<Fp25519, N>::new(
+            Replicated::new_arr(arr(t[4]), arr(t[5])),
+            Replicated::new_arr(arr(t[6]), arr(t[7])),
+        );
+        let mut acc = acc.borrow_mut();
+        let (u0, w0) = acc.u_and_w();
+        acc.accumulate_macs(&Scripted { left: chunks(t[2]), right: chunks(t[3]) }, RecordId::FIRST, &share);
+        let (u1, w1) = acc.u_and_w();
+        format!("{} {}", show::<Fp25519>(&(u1 - u0)), show::<Fp25519>(&(w1 - w0)))
+    }
+
+    fn one<F>(acc: &RefCell<MaliciousAccumulator<F>>, a: (u128, u128), x: (u128, u128), m: (u128, u128)) -> (u128, u128)
+    where
+        F: ExtendableField<ExtendedField = F> + U128Conversions,
+        Replicated<F>: FromPrss,
+    {
+        let f = |v: u128| F::truncate_from(v);
+        let share = MaliciousReplicated::<F>::new(Replicated::new(f(x.0), f(x.1)), Replicated::new(f(m.0), f(m.1)));
+        let mut acc = acc.borrow_mut();
+        let (u0, w0) = acc.u_and_w();
+        acc.accumulate_macs(&Scripted::scalar(a.0, a.1), RecordId::FIRST, &share);
+        let (u1, w1) = acc.u_and_w();
+        ((u1 - u0).as_u128(), (w1 - w0).as_u128())
+    }
+
+    fn pair(s: &str) -> (u128, u128) {
+        let v = parse_nat_list::<u128>(s);
+        (v[0], v[1])
+    }
+
+    fn exec_f<F>(acc: &RefCell<MaliciousAccumulator<F>>, t: &[&str]) -> String
+    where
+        F: ExtendableField<ExtendedField = F> + U128Conversions,
+        Replicated<F>: FromPrss,
+    {
+        match t[0] {
+            "c04.acc1" => {
+                let (du, dw) = one(acc, pair(t[2]), pair(t[3]), pair(t[4]));
+                format!("{du} {dw}")
+            }
+            "c04.acc3" => {
+                let a = parse_nat_list::<u128>(t[2]);
+                let x = parse_nat_list::<u128>(t[3]);
+                let m = parse_nat_list::<u128>(t[4]);
+                let mut du = vec![];
+                let mut dw = vec![];
+                for h in 0..3 {
+                    let n = (h + 1) % 3;
+                    let (u, w) = one(acc, (a[h], a[n]), (x[h], x[n]), (m[h], m[n]));
+                    du.push(u);
+                    dw.push(w);
+                }
+                format!("{} {}", nat_list(&du), nat_list(&dw))
+            }
+            "c04.accg" => {
+                let al: u128 = t[2].parse().unwrap();
+                let ar: u128 = t[3].parse().unwrap();
+                let mut du = vec![];
+                let mut dw = vec![];
+                for bl in 0..31u128 {
+                    for br in 0..31u128 {
+                        let (u, w) = one(acc, (al, ar), (bl, br), (br, bl));
+                        du.push(u);
+                        dw.push(w);
+                    }
+                }
+                format!("{} {}", nat_list(&du), nat_list(&dw))
+            }
+            _ => panic!("harness: unknown request {}", t[0]),
+        }
+    }
+
+    fn generate(rng: &mut Rng, thorough: bool) -> Vec<String> {
+        let mut out = vec![];
+        // Fp31: the complete domain of one call (31^4 operand tuples), one line per (al, ar)
+        for al in 0..31u128 {
+            for ar in 0..31u128 {
+                out.push(format!("c04.accg Fp31 {al} {ar}"));
+            }
+        }
+        for (f, p) in [("Fp31", 31u128), ("Fp32BitPrime", u128::from(Fp32BitPrime::PRIME))] {
+            let edge: Vec<u128> = vec![0, 1, 2, p - 1, p - 2, p / 2, p / 2 + 1];
+            // boundary values in every operand position of one view
+            for &al in &edge {
+                for &ar in &edge {
+                    for &(xl, xr, ml, mr) in &[(0, 0, 0, 0), (p - 1, p - 1, p - 1, p - 1), (1, 0, 0, 1), (0, 1, p - 1, 0),
+                        (p - 1, 1, 2, p - 2), (p / 2, p / 2 + 1, p / 2 + 1, p / 2)]
+                    {
+                        out.push(format!("c04.acc1 {f} {al},{ar} {xl},{xr} {ml},{mr}"));
+                    }
+                }
+            }
+            // three helpers' views of sharings: boundary and random
+            for &a in &[0u128, 1, p - 1] {
+                for &x in &[0u128, 1, p - 1] {
+                    for &m in &[0u128, 2, p - 1] {
+                        out.push(format!("c04.acc3 {f} {a},{a},{a} {x},{x},{x} {m},{m},{m}"));
+                        out.push(format!("c04.acc3 {f} {a},0,{} {x},{},0 0,{m},{}", p - 1, p - 1, p - 2));
+                    }
+                }
+            }
+            let n = if thorough { 20000 } else { 1500 };
+            for _ in 0..n {
+                let v: Vec<u128> = (0..9).map(|_| rng.next_u128() % p).collect();
+                out.push(format!(
+                    "c04.acc3 {f} {},{},{} {},{},{} {},{},{}",
+                    v[0], v[1], v[2], v[3], v[4], v[5], v[6], v[7], v[8]
+                ));
+            }
+            for _ in 0..n {
+                let v: Vec<u128> = (0..6).map(|_| rng.next_u128() % p).collect();
+                out.push(format!("c04.acc1 {f} {},{} {},{} {},{}", v[0], v[1], v[2], v[3], v[4], v[5]));
+            }
+        }
+        // 16-lane Fp25519 shares: every lane has its own coefficient
+        let ell_m1 = "7237005577332262213973186563042994240857116359379907606001950938285454250988";
+        let mut lane_vals = |rng: &mut Rng, style: usize| -> String {
+            (0..16)
+                .map(|i| match style {
+                    0 => "0".to_string(),
+                    1 => ell_m1.to_string(),
+                    2 => (i + 1).to_string(),
+                    3 => if i % 2 == 0 { "1".to_string() } else { ell_m1.to_string() },
+                    _ => {
+                        if rng.below(4) == 0 {
+                            let mut b = rng.bytes(32);
+                            b[31] &= 0x0f;
+                            crate::ipa_verif::c04::le_to_dec(&b)
+                        } else {
+                            (rng.next_u128() >> 3).to_string()
+                        }
+                    }
+                })
+                .collect::<Vec<_>>()
+                .join("+")
+        };
+        let nv = if thorough { 400 } else { 40 };
+        for k in 0..nv {
+            let st = |j: usize| if k < 12 { (k + j) % 5 } else { 4 };
+            let args: Vec<String> = (0..6).map(|j| lane_vals(rng, if j < 2 && k < 12 { 2 + (k + j) % 3 } else { st(j) })).collect();
+            out.push(format!("c04.accv Fp25519x16 {}", args.join(" ")));
+        }
+        out
+    }
+
+    #[test]
+    fn verif_c04_pure() {
+        // one TestWorld (needs a runtime for its background tasks) and one real `Malicious` per field
+        let rt = tokio::runtime::Builder::new_multi_thread().worker_threads(2).enable_all().build().unwrap();
+        let _guard = rt.enter();
+        let world = TestWorld::<NotSharded>::default();
+        let [c1, c2, c3]: [MaliciousContext<'_, NotSharded>; 3] = world.malicious_contexts();
+        let m25 = Malicious::<Fp25519, NotSharded>::new(c3.narrow("c04-fp25519").set_total_records(1usize), 0);
+        let a25 = RefCell::new(m25.accumulator);
+        let m31 = Malicious::<Fp31, NotSharded>::new(c1.narrow("c04-fp31").set_total_records(1usize), 0);
+        let m32 = Malicious::<Fp32BitPrime, NotSharded>::new(c2.narrow("c04-fp32").set_total_records(1usize), 0);
+        let a31 = RefCell::new(m31.accumulator);
+        let a32 = RefCell::new(m32.accumulator);
+        run_suite("c04_pure", generate, |req| {
+            let t: Vec<&str> = req.split(' ').collect();
+            match t[1] {
+                "Fp31" => exec_f::<Fp31>(&a31, &t),
+                "Fp32BitPrime" => exec_f::<Fp32BitPrime>(&a32, &t),
+                "Fp25519x16" => vector16(&a25, &t),
+                f => panic!("harness: unknown field {f}"),
+            }
+        });
+    }
+}
